@@ -53,11 +53,11 @@ type Match struct {
 }
 
 func (m Match) validate(allowEmpty bool) error {
-	if _, err := regexp.Compile(m.Path); err != nil {
+	if err := validateMatchRegex(m.Path); err != nil {
 		return err
 	}
 
-	if _, err := regexp.Compile(m.Name); err != nil {
+	if err := validateMatchRegex(m.Name); err != nil {
 		return err
 	}
 
@@ -190,10 +190,10 @@ type MatchLabel struct {
 }
 
 func (ml MatchLabel) validate() error {
-	if _, err := regexp.Compile(ml.Key); err != nil {
+	if err := validateMatchRegex(ml.Key); err != nil {
 		return err
 	}
-	if _, err := regexp.Compile(ml.Value); err != nil {
+	if err := validateMatchRegex(ml.Value); err != nil {
 		return err
 	}
 	return nil
@@ -218,10 +218,10 @@ type MatchAnnotation struct {
 }
 
 func (ma MatchAnnotation) validate() error {
-	if _, err := regexp.Compile(ma.Key); err != nil {
+	if err := validateMatchRegex(ma.Key); err != nil {
 		return err
 	}
-	if _, err := regexp.Compile(ma.Value); err != nil {
+	if err := validateMatchRegex(ma.Value); err != nil {
 		return err
 	}
 	return nil
@@ -344,5 +344,19 @@ func stateMatches(states []string, state discovery.ChangeType) bool {
 // matchRegex compiles a fully anchored regexp, the pattern is wrapped in
 // a non-capturing group so that top level alternations stay anchored on both ends.
 func matchRegex(s string) *regexp.Regexp {
-	return regexp.MustCompile("^(?:" + s + ")$")
+	return regexp.MustCompile(anchoredPattern(s))
+}
+
+func anchoredPattern(s string) string {
+	return "^(?:" + s + ")$"
+}
+
+// validateMatchRegex checks the pattern the way matchRegex will compile it later,
+// a pattern can be valid on its own but not when wrapped (unterminated \Q quoting).
+func validateMatchRegex(s string) error {
+	if _, err := regexp.Compile(s); err != nil {
+		return err
+	}
+	_, err := regexp.Compile(anchoredPattern(s))
+	return err
 }
